@@ -1492,3 +1492,56 @@ func ruleLentBuffers(r *core.Run, p *core.Prog) {
 	}
 	r.Stat("serving_functions", n)
 }
+
+// ruleMetadataSentinel: `GPDir.Metadata == nil` is how the interface listing (DBWorkManager.ReadMetadata) recognises a day
+// whose metadata has not been loaded — neither from the suffix of the directory name nor from the metadata file — and
+// opens it. A day directory without a suffix exists whenever a writer was interrupted between publishing the metadata
+// file and renaming the directory. The sentinel only works if nothing but the loaders ever makes the field non-nil:
+// stores to GPDir.Metadata (assignments and composite-literal keys) are allowed in the frozen set below; a constructor
+// that pre-populates the field makes every unloaded day look loaded and the listing counts nothing for it.
+func ruleMetadataSentinel(r *core.Run, p *core.Prog) {
+	const rule = "loaded-sentinel"
+	fld := p.FieldObj(pkgGpfile, "GPDir", "Metadata")
+	if fld == nil {
+		r.Missing(rule, "gpfile.GPDir.Metadata")
+		return
+	}
+	loaders := map[string]string{
+		pkgGpfile + ".GPDir.Unmarshal":             "decodes the metadata file",
+		pkgGpfile + ".GPDir.setMetadataFromSuffix": "decodes the suffix of the directory name",
+		pkgGpfile + ".GPDir.Open":                  "write mode: a day that does not exist yet starts with empty metadata and is marked open",
+	}
+	nStores, nTests := 0, 0
+	for _, fn := range p.AllFuncs() {
+		if strings.HasPrefix(core.RelPkg(fn.Pkg.PkgPath), "examples/") {
+			continue
+		}
+		info := fn.Info()
+		core.Walk(fn.Decl.Body, true, func(x ast.Node) bool {
+			switch s := x.(type) {
+			case *ast.AssignStmt:
+				for _, l := range s.Lhs {
+					if core.SelField(info, l) == fld {
+						nStores++
+						_, ok := loaders[fn.Where()]
+						r.Check(rule, "store:"+fn.Where(), p.Rel(s.Pos()), ok, fn.Where()+" sets GPDir.Metadata although it does not load it: `Metadata == nil` no longer means \"not loaded\", so the interface listing does not open such a day and reports none of its flows, packets and bytes")
+					}
+				}
+			case *ast.KeyValueExpr:
+				if id, ok := s.Key.(*ast.Ident); ok && info.Uses[id] == types.Object(fld) && !core.IsNil(info, s.Value) {
+					nStores++
+					_, ok := loaders[fn.Where()]
+					r.Check(rule, "store:"+fn.Where(), p.Rel(s.Pos()), ok, fn.Where()+" constructs a GPDir with Metadata already set although nothing was loaded: `Metadata == nil` no longer means \"not loaded\", so the interface listing does not open such a day and reports none of its flows, packets and bytes")
+				}
+			case *ast.BinaryExpr:
+				if x, y, _, ok := eqTest(s, true); ok && core.IsNil(info, y) && core.SelField(info, x) == fld {
+					nTests++
+				}
+			}
+			return true
+		})
+	}
+	if nStores < 3 || nTests < 1 {
+		r.Undecided(rule, "sites", "-", fmt.Sprintf("%d stores to GPDir.Metadata, %d nil tests found (3 loaders and the test in ReadMetadata on the reference tree)", nStores, nTests))
+	}
+}
